@@ -55,6 +55,10 @@ def run_e1(sc, scratch=None, value_check=True):
         o = comps[ci].outputs[sc["components"][ci]["outputs"][oi]["name"]]
         return tick(o.time) if o.time is not None else None
 
+    # DelayToPush: "now" is the moment of the pull; the model is evaluated right after it, before anything else
+    # is published
+    model.newest_cb = out_time
+
     def lacks(ci):
         """owners (sim indices) of outputs that lack data for ci's announced pull"""
         comp = comps[ci]
